@@ -244,7 +244,8 @@ def run(facts, R):
                             if ds and all("oneshot::channel().1" in render(s.rvalue(d[3])) for d in ds):
                                 return True
                     return False
-                got = any(f["val"] in ("Ok", "Continue") and from_receiver(f["expr"]) for f in fs)
+                from analysis.guards import fact_alternatives
+                got = all(any(f["val"] in ("Ok", "Continue") and from_receiver(f["expr"]) for f in alt) for alt in fact_alternatives(b, s, facts, i))
                 R.check(got, "pending-removed-on-abandon", b.path, "disarm only after a response arrived",
                         "the guard is disarmed on a path where no response was received: a timeout/cancel would leave the entry", t.get("span"),
                         "dominated by the Ok value of the response receiver")
